@@ -313,27 +313,49 @@ example :
   refine ⟨_, rfl, ?_⟩
   decide
 
-/-- the statement one wants for listings: a `verifyListOp` record built from a listing that did not reach its
-limit (`verifyLimit = |observed|`, no look-ahead entry), evaluated at apply time and passing, means the
-unlimited listing is still what was observed -/
-def raft_list_verify_sound_full : Prop :=
-  ∀ (store : Store) (pre after : String) (obs : List String),
-    verifyListFull store { pre := pre, after := after, limit := obs.length, items := obs } = true →
-    listPageInner store pre after (-1) = obs
+/-- **List verification is sound for listings that did not reach their limit (after the repair of F8).** The
+client now records such a listing (non-empty, cursor exhausted, no look-ahead entry) with ONE EXTRA slot:
+`verifyLimit = |observed| + 1`. If that record is actually evaluated at apply time and passes, then the
+unlimited listing — and every limited one with a limit above the observed count — is exactly what was observed.
+All stores, all prefixes. (`obs ≠ [""]` excludes the one collision `strings.Join` has — F27, below; empty
+listings are the second half of `raft_list_verify_sound_partial`.) -/
+theorem raft_list_verify_sound (store : Store) (pre after : String) (obs : List String)
+    (hne : obs ≠ []) (hne' : obs ≠ [""])
+    (hv : verifyListFull store { pre := pre, after := after, limit := obs.length + 1, items := obs } = true) :
+    ∀ l : Int, (l ≤ 0 ∨ l > obs.length) → listPageInner store pre after l = obs := by
+  simp only [verifyListFull, beq_iff_eq] at hv
+  have hv : listPageInner store pre after ((obs.length + 1 : Nat) : Int) = obs := by
+    unfold itemsKey at hv
+    simp only [hne', if_false] at hv
+    split at hv
+    · exact absurd hv.symm hne
+    · exact hv
+  rw [listPageInner_take store pre after _ (by omega)] at hv
+  have h2 : (((obs.length + 1 : Nat) : Int)).toNat = obs.length + 1 := by omega
+  rw [h2] at hv
+  have hfull : listPageInner store pre after 0 = obs := by
+    have hlen := congrArg List.length hv
+    rw [List.length_take] at hlen
+    have : (listPageInner store pre after 0).length ≤ obs.length + 1 := by omega
+    rw [List.take_of_length_le this] at hv
+    exact hv
+  intro l hl
+  rcases hl with hl | hl
+  · rw [listPageInner_nonpos store pre after l hl, hfull]
+  · rw [listPageInner_take store pre after l (by omega), hfull, List.take_of_length_le (by omega)]
 
-/-- **F8**: FALSE on the current code. A transaction lists `foo/ = [a, b]` (the record the real client code
-builds is checked here too), another writer appends `foo/c`: the record still verifies, the listing changed. -/
-theorem raft_list_verify_cex :
-    ¬ raft_list_verify_sound_full ∧
-    (let s : RSys := { RSys.init with store := [("foo/a", "01"), ("foo/b", "01")] }
-     ((beginTx s true).listPage "foo/" "" (-1)).2 = .keys ["a", "b"] ∧
-     ((beginTx s true).listPage "foo/" "" (-1)).1.lists = [{ pre := "foo/", after := "", limit := 2, items := ["a", "b"] }] ∧
-     verifyListFull [("foo/a", "01"), ("foo/b", "01"), ("foo/c", "02")]
-        { pre := "foo/", after := "", limit := 2, items := ["a", "b"] } = true ∧
-     listPageInner [("foo/a", "01"), ("foo/b", "01"), ("foo/c", "02")] "foo/" "" (-1) = ["a", "b", "c"]) := by
-  refine ⟨fun h => ?_, by decide⟩
-  have := h [("foo/a", "01"), ("foo/b", "01"), ("foo/c", "02")] "foo/" "" ["a", "b"] (by decide)
-  exact absurd this (by decide)
+/-- the F8 scenario on the repaired client code: a transaction lists `foo/ = [a, b]` — the record it builds now
+has `verifyLimit = 3` —, another writer appends `foo/c`: the record no longer verifies (and still verifies on the
+unchanged store, so no spurious conflict is introduced) -/
+theorem raft_list_phantom_rejected :
+    (fun s : RSys =>
+      ((Obao.RaftTxn.beginTx s true).listPage "foo/" "" (-1)).2 = .keys ["a", "b"] ∧
+      ((Obao.RaftTxn.beginTx s true).listPage "foo/" "" (-1)).1.lists = [{ pre := "foo/", after := "", limit := 3, items := ["a", "b"] }] ∧
+      verifyListFull [("foo/a", "01"), ("foo/b", "01"), ("foo/c", "02")]
+        { pre := "foo/", after := "", limit := 3, items := ["a", "b"] } = false ∧
+      verifyListFull s.store { pre := "foo/", after := "", limit := 3, items := ["a", "b"] } = true)
+    { RSys.init with store := [("foo/a", "01"), ("foo/b", "01")] } := by
+  decide
 
 /-- What IS sound: (i) a record with a look-ahead entry — the listing reached its limit `n` and the record holds
 the `n` observed entries plus the next one, `verifyLimit = n + 1` — pins the first `n` entries; (ii) an empty
@@ -441,23 +463,21 @@ theorem cache_layer_transparent (s0 : Store) (es : List Event) :
   have := inv_run (CSys.init s0) es (inv_init s0)
   exact ⟨this.1, this.2.1⟩
 
-/-- the statement for finished transactions one would want: behind the cache a finished transaction refuses
-every further use, like the wrapped one does -/
-def cache_finished_refuses_full : Prop :=
-  ∀ (s0 : Store) (es : List Event) (id : Nat) (k : Key) (s' : CSys) (r : Res) (t : Txn),
-    ((CSys.init s0).run es).inner.txns.lookup id = some t → t.finished = true →
-    ((CSys.init s0).run es).step (.op id (.get k)) = some (s', r) → r.isErr = true
+/-- **Behind the cache a finished transaction refuses every further use (after the repair of F22).** After any
+schedule, for a transaction whose wrapped transaction has been committed or rolled back, every operation through
+the cache layer — `Get` of a cached key included — is refused with an error: the cache transaction knows it is
+finished (`FlagInv`) and hands the read to the wrapped transaction instead of its private cache. Together with
+`finished_refuses_use` (the wrapped transaction) this covers the wrapping layer. -/
+theorem finished_refuses_use_cache (s0 : Store) (es : List Event) (id : Nat) (t : Txn) (o : Op) (s' : CSys) (r : Res)
+    (ht : ((CSys.init s0).run es).inner.txns.lookup id = some t) (hf : t.finished = true)
+    (h : ((CSys.init s0).run es).step (.op id o) = some (s', r)) : r.isErr = true :=
+  finished_refused _ s' (flag_run _ es (flag_init s0)) id t ht hf o r h
 
-/-- **F22**: FALSE on the current code — `cacheTransaction.Get` answers from the private LRU without asking the
-wrapped (finished) transaction. -/
-theorem cache_finished_get_cex : ¬ cache_finished_refuses_full := by
-  intro h
-  have := h [("a", "01")] [.begin 0 true, .op 0 (.get "a"), .commit 0] 0 "a"
-    ((CSys.init [("a", "01")]).run [.begin 0 true, .op 0 (.get "a"), .commit 0]) (.val (some "01"))
-    { root := [("a", "01")], writable := true, written := false, finished := true,
-      operations := [{ opType := .get, argKey := "a", retEntry := some "01" }] }
-    (by decide) rfl (by decide)
-  exact absurd this (by decide)
+/-- non-vacuity (the former F22 witness): read `a` through the transaction, commit, read `a` again -/
+example :
+    (fun s : CSys => (s.step (.op 0 (.get "a"))).map (·.2) = some (.err .finished))
+    ((CSys.init [("a", "01")]).run [.begin 0 true, .op 0 (.get "a"), .commit 0]) := by
+  decide
 
 /-- **The commit window.** `cacheTransaction.Commit` taken apart into its micro-steps in code order — the
 underlying commit, then one eviction per modified key — with ANY interleaving of concurrent plain readers
@@ -494,7 +514,7 @@ theorem cache_commit_reversed_order_cex :
           { inner := { parent := [("a", "02")],
                        txns := [(0, { root := [("a", "02")], writable := true, written := true, finished := true,
                                       operations := [{ opType := .put, argKey := "a", argVal := "02", currEntry := some "01" }] })] },
-            lru := [("a", some "01")], ctxns := [(0, { lru := [("a", some "02")], modified := ["a"] })] },
+            lru := [("a", some "01")], ctxns := [(0, { lru := [("a", some "02")], modified := ["a"], finished := true })] },
           inv_run _ _ (inv_init _), by decide, ?_⟩
   intro h
   have := h "a" (some "01") (by decide)
